@@ -40,7 +40,7 @@ func (check) Cases(tier string) int {
 }
 
 func (check) Rule() string {
-	return "one data tree per case (top-level dictionary, keys a,b,c repeated at every depth, depth 3 (1/8: 5), lists up to 3 (1/8: 6) wide, leaves from gen.Prims plus Go ints/uints/floats of all widths, nil, {}, []; 3/4 of the cases insist on nested containers) given (1) in ~13 Go representations (map[string]interface{}, map[interface{}]interface{}, reflect.StructOf structs with renaming tags / inline struct and map groups / ignored fields / typed nil fields, map[string]T, []T, [N]T, *[N]T, map[string]map, []map, pointers to maps, structs and primitives, pointers to pointers, *Config built from another representation, a Child handle, maps holding *Config or Config values, a per-node random mixture; in the first 3 cases of a run also a top-level Config passed by value), with and without PathSep; (2) unpacked into map[string]interface{} and fed back (canonical equality and VerifWalk structure equality, wiring of every node); (3) in ~4 random partial flattenings into dotted keys with PathSep(\".\") (each dictionary edge folded or nested, sub-trees divided at any depth between several dotted keys and a nested rest, dotted keys inside nested maps, complete lists spelled by numeric positions) each carried by 1-2 of: map, interface-keyed map, typed map, struct tags, mixture; (4) in 2 map-carried duplicate constructions (a: one leaf dotted and nested / two partial spellings of its path; b: dotted key below a primitive defined flat, nested or dotted; c: dotted list position plus the list, flat or nested) embedded in the tree at depth 0-2, each built 40 times with permuted insertion order, and 1 deterministic struct-carried duplicate (same tag twice, inline struct/map vs named field, dotted tag vs nested field, dotted tag below a scalar field; both declaration orders). Non-trivial = tree with >= 2 container levels and >= 3 primitive leaves; distinct = distinct tree."
+	return "one data tree per case (top-level dictionary, keys a,b,c repeated at every depth, depth 3 (1/8: 5), lists up to 3 (1/8: 6) wide, leaves from gen.Prims plus Go ints/uints/floats of all widths, nil, {}, []; every case adds 9 freshly drawn numbers of random Go types to the leaf pool (float32/float64 from random bit patterns, short decimal fractions, integral and scaled normal values; integers over the whole range of their width) and gives 1/3 of the all-leaf lists and 1/6 of the all-leaf dictionaries one random element type so that []T, [N]T, *[N]T, map[string]T are frequent; 3/4 of the cases insist on nested containers) given (1) in ~13 Go representations (map[string]interface{}, map[interface{}]interface{}, reflect.StructOf structs with renaming tags / inline struct and map groups / ignored fields / typed nil fields, map[string]T, []T, [N]T, *[N]T, map[string]map, []map, pointers to maps, structs and primitives, pointers to pointers, *Config built from another representation, a Child handle, maps holding *Config or Config values, a per-node random mixture; in the first 3 cases of a run also a top-level Config passed by value), with and without PathSep; the structs of the per-node carriers are written under a random tag name (config, json, cfg, yaml) selected by the StructTag option of the call, and a third of their fields carry a second tag of another name that names, ignores or inlines the field differently; (2) unpacked into map[string]interface{} and fed back (canonical equality and VerifWalk structure equality, wiring of every node); (3) in ~4 random partial flattenings into dotted keys with PathSep(\".\") (each dictionary edge folded or nested, sub-trees divided at any depth between several dotted keys and a nested rest, dotted keys inside nested maps, complete lists spelled by numeric positions) each carried by 1-2 of: map, interface-keyed map, typed map, struct tags, mixture; (4) in 2 map-carried duplicate constructions (a: one leaf dotted and nested / two partial spellings of its path; b: dotted key below a primitive defined flat, nested or dotted; c: dotted list position plus the list, flat or nested) embedded in the tree at depth 0-2, each built 40 times with permuted insertion order, and 1 deterministic struct-carried duplicate (same tag twice, inline struct/map vs named field, dotted tag vs nested field, dotted tag below a scalar field; both declaration orders); (5) as one run-time struct type (nested, by value/pointer) whose fields carry 2-3 tag sets at once, each field independently named (tree key, other key, fresh, dotted) / inlined / ignored under each tag set, normalised 3-5 times in a row while switching the StructTag option (default tag included) and the form (value, pointer, inside a map, inside []interface{}, element of []T and of map[string]T; NewFrom or Merge into an empty config): every call must give the tree its own tag set describes. Non-trivial = tree with >= 2 container levels and >= 3 primitive leaves; distinct = distinct tree."
 }
 
 func (check) Assumptions() []string {
@@ -51,6 +51,8 @@ func (check) Assumptions() []string {
 		"duplicates use two non-nil primitive values; a nil definition and two objects with disjoint keys are not duplicates and are not generated as such; the error is accepted if Reason() is or wraps ErrDuplicateKey, wording and the blamed key are not compared",
 		"map iteration order is not controlled: each map-carried duplicate construction is rebuilt 40 times with permuted insertion order and judged on the set of outcome classes seen (order dependence itself is C09)",
 		"VarExp off: strings containing $ { } . , are plain data",
+		"numbers: any finite value of any Go number type except NaN, infinities and negative zero (not pinned down); a float32 stands for the real number it holds exactly",
+		"struct tags: only name, inline/squash and ignore are generated; fields without the selected tag (default names), unexported fields and the merge/replace/append/prepend flags are not generated; names written under one tag set never collide inside one namespace (duplicates are part 4); a struct type with a dotted name under any of its tag sets is always read with PathSep",
 	}
 }
 
@@ -331,11 +333,16 @@ type fieldSpec struct {
 	val      interface{}
 	concrete bool // field has the value's own type instead of interface{}
 	typedNil int  // for a nil value: 1 = (*string)(nil), 2 = map[string]interface{}(nil), 3 = []interface{}(nil)
+	decoy    string // a complete tag of another name on the same field (`json:"zz,ignore"`); never selected by the call
 }
 
 var typedNils = []reflect.Type{nil, reflect.TypeOf((*string)(nil)), reflect.TypeOf(map[string]interface{}(nil)), reflect.TypeOf([]interface{}(nil))}
 
-func mkStruct(fs []fieldSpec, ptr bool) interface{} {
+func mkStruct(fs []fieldSpec, ptr bool) interface{} { return mkStructTag(fs, ptr, "config") }
+
+// mkStructTag: the field names and flags are written under the tag name tag
+// (the call has to select it with StructTag unless it is `config`).
+func mkStructTag(fs []fieldSpec, ptr bool, tag string) interface{} {
 	fields := make([]reflect.StructField, len(fs))
 	for i, f := range fs {
 		ft := ifaceT
@@ -348,7 +355,10 @@ func mkStruct(fs []fieldSpec, ptr bool) interface{} {
 		fields[i] = reflect.StructField{
 			Name: fmt.Sprintf("F%d", i),
 			Type: ft,
-			Tag:  reflect.StructTag(fmt.Sprintf(`config:"%s"`, f.tag)),
+			Tag:  reflect.StructTag(strings.TrimSpace(fmt.Sprintf(`%s:"%s" %s`, tag, f.tag, f.decoy))),
+		}
+		if i%2 == 1 && f.decoy != "" {
+			fields[i].Tag = reflect.StructTag(fmt.Sprintf(`%s %s:"%s"`, f.decoy, tag, f.tag))
 		}
 	}
 	p := reflect.New(reflect.StructOf(fields))
@@ -378,13 +388,48 @@ type builder struct {
 	r        *rand.Rand
 	pathSep  bool // nested *Config values are built with PathSep(".")
 	noInline bool
-	err      error // first error building a nested *Config
+	tag      string // struct tag name the structs are written with ("" = the default `config`, no option needed)
+	decoys   bool   // fields may carry a second tag of another name that says something else
+	err      error  // first error building a nested *Config
 	evals    int
 	parts    map[string]bool
 }
 
 func newBuilder(r *rand.Rand, pathSep bool) *builder {
 	return &builder{r: r, pathSep: pathSep, parts: map[string]bool{}}
+}
+
+var builderTags = []string{"", "", "config", "json", "cfg", "yaml"}
+
+func (b *builder) tagName() string {
+	if b.tag == "" {
+		return "config"
+	}
+	return b.tag
+}
+
+// tagOpts are the options a call needs to read the structs of this builder.
+func (b *builder) tagOpts() []ucfg.Option {
+	if b.tag == "" {
+		return nil
+	}
+	return []ucfg.Option{ucfg.StructTag(b.tag)}
+}
+
+// decoy writes a tag of another name that names, ignores or inlines the field
+// differently; the call never selects it.
+func (b *builder) decoy(key string) string {
+	if !b.decoys || b.r.Intn(3) != 0 {
+		return ""
+	}
+	b.parts["decoy-tag"] = true
+	var other string
+	for other == "" || other == b.tagName() {
+		other = []string{"config", "json", "yaml", "cfg"}[b.r.Intn(4)]
+	}
+	k2 := gen.Keys[b.r.Intn(len(gen.Keys))]
+	text := []string{k2, k2 + "." + key, key + ",ignore", ",ignore", ",inline", ",squash", "-", ""}[b.r.Intn(8)]
+	return fmt.Sprintf(`%s:"%s"`, other, text)
 }
 
 func (b *builder) node(s *sp, st int, top bool) interface{} {
@@ -431,6 +476,7 @@ func (b *builder) list(s *sp, st int) interface{} {
 	if st == stTyped || (st == stMixed && b.r.Intn(2) == 0) {
 		if t, ok := sameLeafType(s.list); ok {
 			n := len(s.list)
+			b.parts["elem:"+t.String()] = true
 			switch b.r.Intn(3) {
 			case 0:
 				b.parts["[]T"] = true
@@ -502,6 +548,7 @@ func (b *builder) dict(s *sp, st int, top bool) interface{} {
 		if b.pathSep {
 			opts = append(opts, ucfg.PathSep("."))
 		}
+		opts = append(opts, b.tagOpts()...)
 		b.evals++
 		c, err := ucfg.NewFrom(inner, opts...)
 		if err != nil {
@@ -531,6 +578,7 @@ func (b *builder) dict(s *sp, st int, top bool) interface{} {
 		}
 		if t, ok := sameLeafType(vals); ok {
 			b.parts["map[string]T"] = true
+			b.parts["elem:"+t.String()] = true
 			m := reflect.MakeMapWithSize(reflect.MapOf(reflect.TypeOf(""), t), len(vals))
 			for _, e := range s.ents {
 				m.SetMapIndex(reflect.ValueOf(e.key), reflect.ValueOf(e.val.leaf.Prim))
@@ -578,7 +626,7 @@ func (b *builder) structOf(s *sp, child int, ptr bool) interface{} {
 		b.parts["*struct"] = true
 	}
 	mk := func(e ent) fieldSpec {
-		f := fieldSpec{tag: e.key, val: b.node(e.val, child, false), concrete: b.r.Intn(2) == 0}
+		f := fieldSpec{tag: e.key, val: b.node(e.val, child, false), concrete: b.r.Intn(2) == 0, decoy: b.decoy(e.key)}
 		if f.val == nil && b.r.Intn(2) == 0 {
 			f.typedNil = 1 + b.r.Intn(3)
 			b.parts["typed-nil-field"] = true
@@ -606,7 +654,7 @@ func (b *builder) structOf(s *sp, child int, ptr bool) interface{} {
 			for _, e := range in {
 				ifs = append(ifs, mk(e))
 			}
-			inl = mkStruct(ifs, b.r.Intn(3) == 0)
+			inl = mkStructTag(ifs, b.r.Intn(3) == 0, b.tagName())
 		} else {
 			b.parts["inline-map"] = true
 			m := make(map[string]interface{}, len(in))
@@ -637,7 +685,7 @@ func (b *builder) structOf(s *sp, child int, ptr bool) interface{} {
 		pos := b.r.Intn(len(fs) + 1)
 		fs = append(fs[:pos], append([]fieldSpec{ign}, fs[pos:]...)...)
 	}
-	return mkStruct(fs, ptr)
+	return mkStructTag(fs, ptr, b.tagName())
 }
 
 // ---------------------------------------------------------------- observation
@@ -802,7 +850,7 @@ func reasonShort(err error) string {
 }
 
 // checkRep: oracle parts (1) and (2) for one representation of the tree.
-func (k *kase) checkRep(name string, src interface{}, pathSep bool) {
+func (k *kase) checkRep(name string, src interface{}, pathSep bool, extra ...ucfg.Option) {
 	var opts []ucfg.Option
 	label := name
 	if pathSep {
@@ -810,7 +858,7 @@ func (k *kase) checkRep(name string, src interface{}, pathSep bool) {
 		label += "+pathsep"
 	}
 	what := fmt.Sprintf("representation %s of tree %s", label, k.t)
-	c1, err, ok := k.newFrom(what, src, opts)
+	c1, err, ok := k.newFrom(what, src, append(append([]ucfg.Option{}, opts...), extra...))
 	if !ok {
 		return
 	}
@@ -825,6 +873,10 @@ func (k *kase) checkRep(name string, src interface{}, pathSep bool) {
 	k.res.SetAdd("representation", label)
 	got := model.CanonIfc(x1)
 	if got != k.want {
+		if typ, where, found := numberChanged(k.t, x1, ""); found {
+			k.res.Violate("number-not-preserved:"+typ, "a number of the input comes back as another number: %s; unpack gives %s, the tree is %s; %s", where, got, k.want, what)
+			return
+		}
 		k.res.Violate("representation-disagrees:"+name, "unpack gives %s, the tree is %s; %s", got, k.want, what)
 		return
 	}
@@ -923,8 +975,12 @@ func (k *kase) representations() {
 	for _, st := range []int{stStruct, stTyped, stMixed, stConfigValues} {
 		ps := r.Intn(2) == 0
 		b := newBuilder(r, ps)
+		b.tag, b.decoys = builderTags[r.Intn(len(builderTags))], true
 		v := b.node(plain(t), st, true)
 		k.res.Eval(b.evals)
+		if b.parts["struct"] {
+			k.res.SetAdd("struct_tag_option", "StructTag("+b.tag+")")
+		}
 		if b.err != nil {
 			k.res.Violate("newfrom-error:config-part", "building a nested *Config failed: %v; tree %s", b.err, t)
 			continue
@@ -933,8 +989,12 @@ func (k *kase) representations() {
 		if st == stMixed || st == stConfigValues {
 			name = styleName[st]
 		}
-		k.checkRep(name, v, ps)
+		k.checkRep(name, v, ps, b.tagOpts()...)
 		for p := range b.parts {
+			if strings.HasPrefix(p, "elem:") {
+				k.res.SetAdd("typed_container_element", p[5:])
+				continue
+			}
 			k.res.SetAdd("node_representation", p)
 		}
 	}
@@ -1013,14 +1073,18 @@ func (k *kase) flattenings(n int) []string {
 		}
 		for _, st := range sts {
 			b := newBuilder(k.r, true)
+			b.tag, b.decoys = builderTags[k.r.Intn(len(builderTags))], true
 			v := b.node(s, st, true)
 			k.res.Eval(b.evals)
 			what := fmt.Sprintf("flattening %s (shape %s) carried by %s; tree %s", s, shape, styleName[st], k.t)
+			if b.tag != "" {
+				what += "; structs tagged `" + b.tag + "`, call with StructTag(" + b.tag + ")"
+			}
 			if b.err != nil {
 				k.res.Violate("dotted-newfrom-error:config-part:"+reasonShort(b.err), "building a nested *Config from dotted keys failed: %v; %s", b.err, what)
 				continue
 			}
-			c, err, ok := k.newFrom(what, v, sepOpts)
+			c, err, ok := k.newFrom(what, v, append(append([]ucfg.Option{}, sepOpts...), b.tagOpts()...))
 			if !ok {
 				continue
 			}
@@ -1040,6 +1104,10 @@ func (k *kase) flattenings(n int) []string {
 			k.res.SetAdd("flattening_carrier", styleName[st])
 			k.res.Ev("flattenings_checked", 1)
 			if got := model.CanonIfc(x); got != k.want {
+				if typ, where, found := numberChanged(k.t, x, ""); found {
+					k.res.Violate("number-not-preserved:"+typ, "a number of the input comes back as another number: %s; unpack gives %s, the tree is %s; %s", where, got, k.want, what)
+					continue
+				}
 				k.res.Violate("dotted-nested-disagree"+sfx, "unpack gives %s, the nested form gives %s; %s", got, k.want, what)
 				continue
 			}
@@ -1374,7 +1442,7 @@ func leaves(n *model.Node) int {
 func (check) Run(seed int64, tier string, idx int, verbose bool) harness.Result {
 	res := harness.NewR(idx)
 	r := rand.New(rand.NewSource(harness.Mix(seed, "C05", idx)))
-	o := gen.TreeOpts{Prims: leafPool}
+	o := gen.TreeOpts{Prims: casePool(r)}
 	depth := 3
 	if r.Intn(8) == 0 {
 		depth = 5
@@ -1387,13 +1455,16 @@ func (check) Run(seed int64, tier string, idx int, verbose bool) harness.Result 
 	for try := 0; try < 4 && idx%4 != 0 && levels(t) < 2; try++ {
 		t = gen.TopDict(r, o, depth)
 	}
+	homogenize(r, t)
 	k := &kase{res: res, idx: idx, r: r, t: t, want: t.Canon(), verbose: verbose}
+	k.leafMonitors(t)
 	if levels(t) >= 2 && leaves(t) >= 3 {
 		res.Key(t.String())
 	}
 	res.SetAdd("tree_levels", strconv.Itoa(levels(t)))
 
 	k.representations()
+	views := k.tagViews()
 	flat := k.flattenings(4)
 	var dups []string
 	for i := 0; i < 2; i++ {
@@ -1402,12 +1473,12 @@ func (check) Run(seed int64, tier string, idx int, verbose bool) harness.Result 
 	dups = append(dups, k.structDuplicate(structDups[r.Intn(len(structDups))]))
 
 	if idx < 2 || verbose {
-		s := map[string]interface{}{"tree": t.String(), "canonical": k.want, "flattenings": flat, "duplicates": dups}
+		s := map[string]interface{}{"tree": t.String(), "canonical": k.want, "flattenings": flat, "duplicates": dups, "multi_tag_struct": views}
 		if idx < 2 {
 			res.Sample = s
 		}
 		if verbose {
-			fmt.Printf("tree %s\n canonical %s\n flattenings %v\n duplicates %v\n", t, k.want, flat, dups)
+			fmt.Printf("tree %s\n canonical %s\n flattenings %v\n duplicates %v\n multi-tag struct %s\n", t, k.want, flat, dups, views)
 		}
 	}
 	return res.Done()
